@@ -221,6 +221,10 @@ func firstDiff(x, y *canonNode, parent string) (sig, detail string, differ bool)
 	if x.fld != "" {
 		where = parent + "." + x.fld
 	}
+	if x.kind == "ParenExpr" && y.kind != "ParenExpr" {
+		// the parentheses are gone (what is inside does not matter for the cause)
+		return where + ":ParenExpr-dropped", fmt.Sprintf("%s became %s", clip(x.String(), 200), clip(y.String(), 200)), true
+	}
 	if x.kind != y.kind {
 		return fmt.Sprintf("%s:%s->%s", where, x.head(), y.head()), fmt.Sprintf("%s became %s", clip(x.String(), 200), clip(y.String(), 200)), true
 	}
